@@ -23,7 +23,7 @@ RULE = ("states = distinct trivia variants / lexeme strings; transitions = real 
         "tokenisations; every variant's AST must equal the base's and every lexically valid string's real token "
         "stream must equal the reference stream (both readings agreeing)")  # fmt: skip
 
-TRIVIA = [" ", "\t", "\n", "\r\n", "  \n  ", "\f", "// c\n", "//\n", "// ' \"\n", "// /* \n", "// */ x\n", "/* c */", "/**/", "/***/",
+TRIVIA = [" ", "\t", "\n", "\r\n", "  \n  ", "\f", "\v", "\r", "// c", "/* */ //", "// c\n", "//\n", "// ' \"\n", "// /* \n", "// */ x\n", "/* c */", "/**/", "/***/",
           "/* * / */", "/* ' */", '/* " */', "/* // */", "/* if return */", "/* a */ /* b */", "/* a */\n/* b */", "/* m\nl */",
           "/* é */", "// é\n", "/*\n*/", "/* x **/", "/* a */ // b\n", "/* } */", "/* \"s\" weighted 1, */"]  # fmt: skip
 
